@@ -49,6 +49,20 @@ def byte (cl : Bytes → Option Nat) (maxHeader : Nat) (s : St) (x : UInt8) : Op
     else if h.length > maxHeader then none
     else some { s with header := h }
 
+/-- When a byte is refused: is the peer told? A refusal that comes from the HEADER of a request — it does not parse, its
+    length is unknown (chunked coding), it does not end — is answered with an HTTP error response before the connection is
+    closed (F62 repair: 400 / 411 / 431, what net/http itself would have answered; before it the connection was closed
+    without a word). Bytes that follow a complete request before its response are the one thing that is refused silently. -/
+def answered (s : St) : Bool := !s.complete && !s.inBody
+
+/-- the refusal of a whole read: `none` = the read is accepted; `some told` = refused, and whether the peer is told -/
+def refusal (cl : Bytes → Option Nat) (maxHeader : Nat) : St → Bytes → Option Bool
+  | _, [] => none
+  | s, x :: xs =>
+    match byte cl maxHeader s x with
+    | none => some (answered s)
+    | some s' => refusal cl maxHeader s' xs
+
 /-- one raw read -/
 def feed (cl : Bytes → Option Nat) (maxHeader : Nat) : St → Bytes → Option St
   | s, [] => some s
